@@ -111,17 +111,14 @@ def vis (c : Content) : Val :=
     | .none => (match c.slice with | some l => .u32s l | none => .none)
     | v => v
 
-/-- Exactly one representation per visible value (no hidden slice, no stale void flag). -/
-def WF (c : Content) : Prop :=
-  c.isNil = false ∧ (c.void = true → c.val = .none ∧ c.slice = none) ∧
-  (c.val ≠ .none → c.slice = none) ∧ (∀ l, c.val ≠ .u32s l) ∧
-  (c.void = false → c.val = .none → c.slice = none → False)
-
 /-- canonical content of a visible value -/
 def ofVal : Val → Content
   | .none => { void := true }
   | .u32s l => { slice := some l }
   | v => { val := v }
+
+/-- Exactly one representation per visible value (no hidden slice, no stale void flag, not nil). -/
+def WF (c : Content) : Prop := c = ofVal c.vis
 end Content
 
 /-- Facts about the content setters (treasure.go, gateway.go:keyValuesToTreasure). -/
